@@ -1,5 +1,6 @@
 """C14 — battery models follow their documented charging laws (ideal: min of three; two-stage continuous,
 noise off: flow of d soc/dt = min(requested, max*(1-soc)/(1-ts)))."""
+import math
 import time
 
 from harness import batt, c03
@@ -9,7 +10,7 @@ from harness.core import q
 PID = "C14"
 GEN_GROUPS = ["Battery", "BatteryGuard"]
 TARGETS = ["coq/Props/C14.vo", "coq/Model/Battery.vo"]
-CASES = {"quick": 200, "thorough": 4000}
+CASES = {"quick": 170, "thorough": 4000}
 CORR_HEADER = batt.CORR_HEADER
 CHECK_FN = "check_batt"
 SHARD = 25
@@ -44,7 +45,7 @@ def probe_ops(c, p, p_hi, V, T, T_long):
             ("charge", p, V, T, n), ("charge", 0, V, T, n), ("charge", p, V, T, n), ("reset", None)]
 
 
-I_FULL, I_HALF2, I_THIRD3, I_HI, I_LONG, I_PRE_ZERO, I_ZERO, I_LAST, I_RESET = 1, 4, 8, 10, 12, 14, 15, 16, 17
+I_FULL, I_HALF2, I_THIRD3, I_HI, I_LONG, I_PRE_ZERO, I_ZERO, I_LAST, I_RESET = 1, 4, 8, 10, 12, 14, 15, 16, -1
 
 
 def other_init(rng, cap, c):
@@ -63,7 +64,7 @@ def rand_probe(rng):
         spec["nl"] = 0
         spec["mode"] = "continuous"
     V = rng.choice(c03.VS)
-    T = rng.choice([1, 5, 5, 15, 60, 3, 12])
+    T = rng.choice([1, 5, 5, 15, 60, 3, 12, 7, 9, 45, 90, 0.7, 2.5])      # incl. periods that do not divide an hour
     p = c03.rand_pilot(rng, spec, V)
     if p < 0 or (0 < p < 0.05):
         p = rng.choice([6, 16, 32])
@@ -73,11 +74,18 @@ def rand_probe(rng):
         c = float(rng.choice(cands) + F(rng.choice([1, -1]) * rng.choice(c03.OFFS)) * F(spec["cap"]) / 64)
     else:
         c = round(rng.uniform(0, spec["cap"]), 4)
+    if rng.random() < 0.12:                            # one ulp next to the boundary
+        c = math.nextafter(c, rng.choice([-math.inf, math.inf]))
     c = min(max(c, 0.0), float(spec["cap"]))
     spec["init"] = other_init(rng, spec["cap"], c)
+    if rng.random() < 0.2:
+        spec["dtype"] = rng.choice(c03.DTYPES)         # same numbers as numpy scalars / python ints / floats
     p_hi = p + rng.choice([0, 1e-6, 0.5, 1, 8, 40])
     T_long = T * rng.choice([1, 1.000001, 1.5, 2, 7])
-    return spec, probe_ops(c, p, p_hi, V, T, T_long), dict(c=c, p=p, p_hi=p_hi, V=V, T=T, T_long=T_long)
+    ops = probe_ops(c, p, p_hi, V, T, T_long)
+    if rng.random() < 0.3:
+        ops.insert(len(ops) - 1, ("json",))            # reload the object from JSON before the final reset()
+    return spec, ops, dict(c=c, p=p, p_hi=p_hi, V=V, T=T, T_long=T_long)
 
 
 # ---- life sequences: arbitrary interleavings of charge / reset(x) / reset(x > capacity) / reset() ----
@@ -108,8 +116,10 @@ def rand_life(rng):
             ops.append(("reset", level()))
         elif t < 0.78:
             ops.append(("reset", cap + rng.choice([1e-6, 1, 50])))          # refused: nothing may change
-        elif t < 0.93:
+        elif t < 0.88:
             ops.append(("reset", None))
+        elif t < 0.95:
+            ops.append(("json",))
         else:
             ops.append(("charge", 16, rng.choice([0, -1]), 5, 0.0))         # refused call
     # always: an explicit level, some charging, (maybe another level / a refused one), then reset() and the tail
@@ -118,11 +128,48 @@ def rand_life(rng):
     if rng.random() < 0.3:
         ops.append(("reset", cap + 1) if rng.random() < 0.5 else ("reset", level()))
         ops += [charge() for _ in range(rng.randint(0, 1))]
+    if rng.random() < 0.3:
+        ops.append(("json",))                           # reload from JSON between reset(x) and reset()
     ops.append(("reset", None))
     ops += [("charge", p, V, T, 0.0) for p, T in TAIL]
     if rng.random() < 0.4:
         ops += [("reset", None), charge()]
+    if rng.random() < 0.2:
+        spec["dtype"] = rng.choice(c03.DTYPES)
     return spec, ops
+
+
+def pair_cases(rng):
+    """two live noiseless batteries that differ in ONE constructor argument, driven alternately through the same probe
+    sequence (charge(T), charge(T/2) x2, another period, reset(), ...): each must follow the law for ITS parameters"""
+    spec, ops, probe = rand_probe(rng)
+    other = dict(spec)
+    what = rng.choice(["maxP", "maxP", "cap", "ts", "class"])
+    if what == "maxP" or (what == "ts" and spec["kind"] != "l2"):
+        other["maxP"] = spec["maxP"] * rng.choice([0.5, 2, 3])
+    elif what == "cap":
+        other["cap"] = spec["cap"] * 2
+    elif what == "ts":
+        other["ts"] = rng.choice([x for x in c03.TSS if x != spec["ts"]])
+    else:
+        other = dict(kind="ideal", cap=spec["cap"], maxP=spec["maxP"], init=spec["init"]) if spec["kind"] == "l2" else \
+            dict(spec, kind="l2", nl=0, ts=rng.choice([0, 0.5, 0.8]), mode="continuous")
+    if "dtype" in spec:
+        other["dtype"] = spec["dtype"]
+    order = [rng.choice([0, 1]) for _ in range(2 * len(ops))]
+    a, b = (spec, other) if rng.random() < 0.5 else (other, spec)
+    return build_pair(a, b, ops, order, probe)
+
+
+def build_pair(a, b, ops, order, probe):
+    ia, ib = batt.run_pair(a, ops, b, ops, order)
+    out = []
+    for which, (sp, im) in enumerate(((a, ia), (b, ib))):
+        c = build(sp, ops, dict(probe), impl=im)
+        c["kind"] += "/pair"
+        c["input"]["pair"] = dict(a=a, b=b, ops=[list(o) for o in ops], order=order, which=which)
+        out.append(c)
+    return out
 
 
 def fresh_segments(spec, ops):
@@ -154,14 +201,15 @@ def ev_reset_obs(spec, ops):
     return dict(delivered=batt.fnum(ev.energy_delivered), charge=batt.fnum(b._current_charge), power=batt.fnum(b._current_charging_power))
 
 
-def build(spec, ops, probe, life=False):
-    impl = batt.run_impl(spec, ops)
+def build(spec, ops, probe, life=False, impl=None):
+    if impl is None:
+        impl = batt.run_impl(spec, ops)
     if life and impl["ctor_err"] is None:
         impl["fresh"] = fresh_segments(spec, ops)
         impl["ev_reset"] = ev_reset_obs(spec, ops)
     if probe is not None and impl["ctor_err"] is None and spec["kind"] == "l2" and probe["p"] > 0:
         impl["ode_charge"] = batt.ode_charge(spec["cap"], spec["maxP"], spec["ts"], probe["c"], probe["p"], probe["V"], probe["T"])
-    kind = "%s/%s" % (spec["kind"], "probe" if probe is not None else "life" if life else "seq")
+    kind = "%s/%s%s" % (spec["kind"], "probe" if probe is not None else "life" if life else "seq", "/dtype" if spec.get("dtype") else "")
     return dict(input=dict(spec=spec, ops=[list(o) for o in ops], probe=probe, life=life), impl=impl,
                 coq=batt.case_coq(spec, ops, impl), ambiguous=False, kind=kind,
                 sig=[spec, [list(o) for o in ops]], nontrivial=True)
@@ -179,9 +227,11 @@ def gen_cases(rng, n, tier):
         if t < 0.68:
             spec, ops, probe = rand_probe(rng)
             cases.append(build(spec, ops, probe))
-        elif t < 0.92:
+        elif t < 0.90:
             spec, ops = rand_life(rng)
             cases.append(build(spec, ops, None, life=True))
+        elif t < 0.95:
+            cases.extend(pair_cases(rng))
         else:
             # plain noiseless sequences (ideal / continuous), as in C03
             spec = c03.rand_spec(rng, rng.choice(["ideal", "l2"]))
@@ -211,7 +261,7 @@ def law_cases(rng, n):
 
 
 def extra_streams(rng, tier):
-    return [("law", CORR_HEADER, "check_law", law_cases(rng, 120 if tier == "quick" else 2000)),
+    return [("law", CORR_HEADER, "check_law", law_cases(rng, 80 if tier == "quick" else 2000)),
             ("qexp", CORR_HEADER, "check_qexp", batt.qexp_cases(rng, 60 if tier == "quick" else 600))]
 
 
@@ -248,7 +298,11 @@ def monitor_life(case):
     cap, init = spec["cap"], spec["init"]
     charge, power = init, 0
     for k, (op, ob) in enumerate(zip(ops, impl["obs"])):
-        if op[0] == "reset":
+        if op[0] == "json":
+            if ob["err"] is not None or ob["charge"] != charge or ob["power"] != power:
+                return "op %d: JSON round trip changed the battery: %r, charge %r -> %r, power %r -> %r" % (
+                    k, ob["err"], charge, ob["charge"], power, ob["power"])
+        elif op[0] == "reset":
             x = op[1]
             if x is not None and x > cap:
                 if ob["err"] != "ValueError" or ob["charge"] != charge or ob["power"] != power:
@@ -320,6 +374,10 @@ def monitor(case):
     z, zc = obs[I_ZERO], obs[I_PRE_ZERO]["charge"]
     if z["rate"] != 0 or z["power"] != 0 or z["charge"] != zc:
         return "zero pilot delivered something: rate %r power %r charge %r -> %r" % (z["rate"], z["power"], zc, z["charge"])
+    ops_ = case["input"]["ops"]
+    if ops_[-2][0] == "json" and (obs[-2]["charge"] != obs[-3]["charge"] or obs[-2]["power"] != obs[-3]["power"]):
+        return "JSON round trip changed the battery: charge %r -> %r, power %r -> %r" % (
+            obs[-3]["charge"], obs[-2]["charge"], obs[-3]["power"], obs[-2]["power"])
     r = obs[I_RESET]
     if r["charge"] != spec["init"] or r["power"] != 0:
         return "reset() did not restore the initial state: charge %r power %r (constructor: charge %r, power 0)" % (
@@ -344,10 +402,18 @@ def search(rng, budget_s, broken):
             r = monitor(c)
             if r:
                 return dict(case=c["input"], impl=c["impl"], why=r)
+            for c in pair_cases(rng):
+                r = monitor(c)
+                if r:
+                    return dict(case=c["input"], impl=c["impl"], why=r)
     return None
 
 
 def replay(w):
     inp = w["case"]
+    if inp.get("pair"):
+        pr = inp["pair"]
+        cs = build_pair(dict(pr["a"]), dict(pr["b"]), [tuple(o) for o in pr["ops"]], list(pr["order"]), inp.get("probe"))
+        return monitor(cs[pr["which"]]) or monitor(cs[1 - pr["which"]])
     c = build(dict(inp["spec"]), [tuple(o) for o in inp["ops"]], inp.get("probe"), life=bool(inp.get("life")))
     return monitor(c)
